@@ -17,16 +17,16 @@ from .tlc import MachineryError, run_jobs, shard_jobs, validate_trace
 
 FAMILIES_QUICK = [("point", 3, 1, None), ("multipoint", 3, 2, None), ("line", 3, 32, range(0, 10)),
                   ("multiline", 3, 128, range(0, 6)), ("polygon", 3, 32, range(0, 10)), ("holed", 5, 128, range(0, 10)),
-                  ("multipolygon", 3, 128, range(0, 6)), ("holedmulti", 5, 512, range(0, 4))]
+                  ("multipolygon", 3, 128, range(0, 6)), ("holedmulti", 6, 8, range(0, 2))]
 FAMILIES_THOROUGH = [("point", 4, 2, None), ("multipoint", 3, 4, None), ("line", 3, 16, None),
                      ("line4", 3, 64, None), ("multiline", 3, 64, None), ("polygon", 3, 16, None),
-                     ("holed", 5, 64, None), ("multipolygon", 3, 64, None), ("holedmulti", 5, 256, range(0, 64))]
+                     ("holed", 5, 64, None), ("multipolygon", 3, 64, None), ("holedmulti", 6, 8, None)]
 
 
-def generate(chk: Check, families):
+def generate(chk: Check, families, module="MC_BoxHit", seqname="BOXSEQ"):
     jobs = []
     for fam, G, ns, which in families:
-        jobs += shard_jobs("MC_BoxHit", dict(constants=dict(G=G, Fam=fam), invariants=["DesignAgrees"]),
+        jobs += shard_jobs(module, dict(constants=dict(G=G, Fam=fam), invariants=["DesignAgrees"]),
                            ns, which=which, dump=True, continue_=True, timeout=3000)
     results = run_jobs(jobs)
     chk.add_tlc(results)
@@ -38,10 +38,10 @@ def generate(chk: Check, families):
         i += n
         boxseq = None
         for chunk in rs[0].printed():
-            if chunk.startswith('<<"BOXSEQ"') or chunk.startswith('<< "BOXSEQ"'):
+            if chunk.startswith('<<"%s"' % seqname) or chunk.startswith('<< "%s"' % seqname):
                 boxseq = parse_value(chunk)[1]
         if boxseq is None:
-            raise MachineryError("MC_BoxHit did not print BOXSEQ")
+            raise MachineryError(f"{module} did not print {seqname}")
         cases = []
         design_bad = 0
         for r in rs:
